@@ -413,6 +413,21 @@ pub fn problem_quasi_units() -> BoxedStrategy<(Problem, Vec<f64>)> {
         .boxed()
 }
 
+/// the same problem on a time axis stretched by `s`: y(t) -> y(t / s). Every rate, frequency and forcing amplitude is
+/// divided by s; solutions, amplitudes and conditioning are unchanged (slow time scales: steps far above 1)
+pub fn scale_time(p: Problem, s: f64) -> Problem {
+    let d = |v: Vec<f64>| v.into_iter().map(|x| x / s).collect::<Vec<f64>>();
+    match p {
+        Problem::Lin { blocks, mix, center } => Problem::Lin { blocks: blocks.into_iter().map(|(a, w)| (a / s, w / s)).collect(), mix, center },
+        // kind 0: y' = -lam y + amp sin(om t): the particular solution keeps its size when lam, om and amp scale together;
+        // kind 1: y' = amp cos(om t) likewise
+        Problem::Forced { kind, lam, om, amp } => Problem::Forced { kind, lam: d(lam), om: d(om), amp: d(amp) },
+        Problem::Sep { kind, r } => Problem::Sep { kind, r: d(r) },
+        Problem::Generic { al, om, be, ga, nu } => Problem::Generic { al: d(al), om: d(om), be: d(be), ga: d(ga), nu: d(nu) },
+        Problem::Quasi { lam, c0, a } => Problem::Quasi { lam: d(lam), c0, a: d(a) },
+    }
+}
+
 /// the whole family with the stated weights
 pub fn problem_any() -> BoxedStrategy<(Problem, Vec<f64>)> {
     prop_oneof![3 => problem_lin(false), 1 => problem_lin(true), 2 => problem_forced(), 2 => problem_sep(), 3 => problem_generic()].boxed()
